@@ -355,6 +355,153 @@ impl Shadow {
     }
 }
 
+struct Decoded {
+    blobs_text: String,
+    real: usize,
+    ureal: usize,
+    malformed: usize,
+    orphans: usize,
+    dec: String,
+}
+
+/// Conductor-style decoding of the blobs of one submission (`celestia/convert.rs`) and the
+/// comparison with the source blocks.
+fn decode_blobs(
+    blobs: &[(Namespace, Vec<u8>)],
+    sources: &HashMap<[u8; 32], Source>,
+    filter: &IncludeRollup,
+) -> Decoded {
+let real: usize = blobs.iter().map(|b| b.1.len()).sum();
+
+    // --- conductor-style decoding (convert.rs): decompress, decode the list, try_from_raw ---
+    let mut ureal = 0usize;
+    let mut blob_texts: Vec<String> = vec![];
+    let mut dec_meta: Vec<RawMeta> = vec![];
+    let mut dec_rollup: Vec<(Namespace, RawRollup)> = vec![];
+    let mut malformed = 0usize;
+    let seq_ns_real = blobs.first().map(|b| b.0);
+    for (i, (blob_ns, blob_data)) in blobs.iter().enumerate() {
+        let ns = ns_text(blob_ns);
+        let Ok(data) = decompress_bytes(blob_data) else {
+            blob_texts.push(format!("{ns}:X:decompress"));
+            malformed += 1;
+            continue;
+        };
+        ureal += data.len();
+        // the first blob is the metadata list (conductor fetches it under the sequencer
+        // namespace); all others are rollup lists (fetched under the rollup's namespace)
+        if i == 0 {
+            match SubmittedMetadataList::decode(&*data) {
+                Ok(list) => {
+                    blob_texts.push(format!(
+                        "{ns}:M:{}",
+                        list.entries.iter().map(meta_entry_text).collect::<Vec<_>>().join("+")
+                    ));
+                    let all_ok = list
+                        .entries
+                        .iter()
+                        .all(|raw| SubmittedMetadata::try_from_raw(raw.clone()).is_ok());
+                    if all_ok {
+                        dec_meta.extend(list.entries);
+                    } else {
+                        malformed += 1;
+                    }
+                }
+                Err(_) => {
+                    blob_texts.push(format!("{ns}:X:decode"));
+                    malformed += 1;
+                }
+            }
+        } else {
+            match SubmittedRollupDataList::decode(&*data) {
+                Ok(list) => {
+                    blob_texts.push(format!(
+                        "{ns}:R:{}",
+                        list.entries.iter().map(rollup_entry_text).collect::<Vec<_>>().join("+")
+                    ));
+                    let all_ok = list
+                        .entries
+                        .iter()
+                        .all(|raw| SubmittedRollupData::try_from_raw(raw.clone()).is_ok());
+                    if all_ok {
+                        dec_rollup.extend(list.entries.into_iter().map(|e| (*blob_ns, e)));
+                    } else {
+                        malformed += 1;
+                    }
+                }
+                Err(_) => {
+                    blob_texts.push(format!("{ns}:X:decode"));
+                    malformed += 1;
+                }
+            }
+        }
+    }
+    // canonical order: metadata blob first, then rollup blobs by namespace (HashMap order in the code)
+    let split = usize::from(!blob_texts.is_empty());
+    let (first, rest) = blob_texts.split_at_mut(split);
+    rest.sort();
+    let blobs_text = first
+        .iter()
+        .chain(rest.iter())
+        .cloned()
+        .collect::<Vec<_>>()
+        .join(";");
+
+    // --- per source block: is what conductor would get exactly the block's data? ---
+    let mut dec: Vec<String> = vec![];
+    let mut used_rollup = vec![false; dec_rollup.len()];
+    let mut orphans = 0usize;
+    for m in &dec_meta {
+        let mut hash = [0u8; 32];
+        if m.block_hash.len() == 32 {
+            hash.copy_from_slice(&m.block_hash);
+        }
+        let Some(src) = sources.get(&hash) else {
+            orphans += 1;
+            continue;
+        };
+        let meta_ok = *m == src.meta
+            && seq_ns_real.is_some()
+            && dec_meta.iter().filter(|x| x.block_hash == m.block_hash).count() == 1;
+        let mut want = 0usize;
+        let mut got = 0usize;
+        for (id, raw) in &src.rollups {
+            if !filter.should_include(id) {
+                continue;
+            }
+            want += 1;
+            let ns = astria_core::celestia::namespace_v0_from_rollup_id(*id);
+            let hits: Vec<usize> = dec_rollup
+                .iter()
+                .enumerate()
+                .filter(|(_, (n, e))| {
+                    *n == ns
+                        && e.sequencer_block_hash == raw.sequencer_block_hash
+                        && e.rollup_id == raw.rollup_id
+                })
+                .map(|(i, _)| i)
+                .collect();
+            if hits.len() == 1 && dec_rollup[hits[0]].1 == *raw {
+                got += 1;
+            }
+            for i in hits {
+                used_rollup[i] = true;
+            }
+        }
+        dec.push(format!("{}:{}:{got}/{want}", src.height, u8::from(meta_ok)));
+    }
+    orphans += used_rollup.iter().filter(|u| !**u).count();
+
+    Decoded {
+        blobs_text,
+        real,
+        ureal,
+        malformed,
+        orphans,
+        dec: if dec.is_empty() { "-".to_string() } else { dec.join(",") },
+    }
+}
+
 // ---------------------------------------------------------------------------------------------
 // session = one BlobSubmitter
 // ---------------------------------------------------------------------------------------------
@@ -607,127 +754,15 @@ impl Session {
             .unwrap_or_default();
         excl.sort();
 
-        let blobs = submission.into_blobs();
-        let real: usize = blobs.iter().map(|b| b.data.len()).sum();
-
-        // --- conductor-style decoding (convert.rs): decompress, decode the list, try_from_raw ---
-        let mut ureal = 0usize;
-        let mut blob_texts: Vec<String> = vec![];
-        let mut dec_meta: Vec<RawMeta> = vec![];
-        let mut dec_rollup: Vec<(Namespace, RawRollup)> = vec![];
-        let mut malformed = 0usize;
-        let seq_ns_real = blobs.first().map(|b| b.namespace);
-        for (i, blob) in blobs.iter().enumerate() {
-            let ns = ns_text(&blob.namespace);
-            let Ok(data) = decompress_bytes(&blob.data) else {
-                blob_texts.push(format!("{ns}:X:decompress"));
-                malformed += 1;
-                continue;
-            };
-            ureal += data.len();
-            // the first blob is the metadata list (conductor fetches it under the sequencer
-            // namespace); all others are rollup lists (fetched under the rollup's namespace)
-            if i == 0 {
-                match SubmittedMetadataList::decode(&*data) {
-                    Ok(list) => {
-                        blob_texts.push(format!(
-                            "{ns}:M:{}",
-                            list.entries.iter().map(meta_entry_text).collect::<Vec<_>>().join("+")
-                        ));
-                        let all_ok = list
-                            .entries
-                            .iter()
-                            .all(|raw| SubmittedMetadata::try_from_raw(raw.clone()).is_ok());
-                        if all_ok {
-                            dec_meta.extend(list.entries);
-                        } else {
-                            malformed += 1;
-                        }
-                    }
-                    Err(_) => {
-                        blob_texts.push(format!("{ns}:X:decode"));
-                        malformed += 1;
-                    }
-                }
-            } else {
-                match SubmittedRollupDataList::decode(&*data) {
-                    Ok(list) => {
-                        blob_texts.push(format!(
-                            "{ns}:R:{}",
-                            list.entries.iter().map(rollup_entry_text).collect::<Vec<_>>().join("+")
-                        ));
-                        let all_ok = list
-                            .entries
-                            .iter()
-                            .all(|raw| SubmittedRollupData::try_from_raw(raw.clone()).is_ok());
-                        if all_ok {
-                            dec_rollup.extend(list.entries.into_iter().map(|e| (blob.namespace, e)));
-                        } else {
-                            malformed += 1;
-                        }
-                    }
-                    Err(_) => {
-                        blob_texts.push(format!("{ns}:X:decode"));
-                        malformed += 1;
-                    }
-                }
-            }
-        }
-        // canonical order: metadata blob first, then rollup blobs by namespace (HashMap order in the code)
-        let split = usize::from(!blob_texts.is_empty());
-        let (first, rest) = blob_texts.split_at_mut(split);
-        rest.sort();
-        let blobs_text = first
-            .iter()
-            .chain(rest.iter())
-            .cloned()
-            .collect::<Vec<_>>()
-            .join(";");
-
-        // --- per source block: is what conductor would get exactly the block's data? ---
-        let mut dec: Vec<String> = vec![];
-        let mut used_rollup = vec![false; dec_rollup.len()];
-        let mut orphans = 0usize;
-        for m in &dec_meta {
-            let mut hash = [0u8; 32];
-            if m.block_hash.len() == 32 {
-                hash.copy_from_slice(&m.block_hash);
-            }
-            let Some(src) = self.sources.get(&hash) else {
-                orphans += 1;
-                continue;
-            };
-            let meta_ok = *m == src.meta
-                && seq_ns_real.is_some()
-                && dec_meta.iter().filter(|x| x.block_hash == m.block_hash).count() == 1;
-            let mut want = 0usize;
-            let mut got = 0usize;
-            for (id, raw) in &src.rollups {
-                if !self.filter.should_include(id) {
-                    continue;
-                }
-                want += 1;
-                let ns = astria_core::celestia::namespace_v0_from_rollup_id(*id);
-                let hits: Vec<usize> = dec_rollup
-                    .iter()
-                    .enumerate()
-                    .filter(|(_, (n, e))| {
-                        *n == ns
-                            && e.sequencer_block_hash == raw.sequencer_block_hash
-                            && e.rollup_id == raw.rollup_id
-                    })
-                    .map(|(i, _)| i)
-                    .collect();
-                if hits.len() == 1 && dec_rollup[hits[0]].1 == *raw {
-                    got += 1;
-                }
-                for i in hits {
-                    used_rollup[i] = true;
-                }
-            }
-            dec.push(format!("{}:{}:{got}/{want}", src.height, u8::from(meta_ok)));
-        }
-        orphans += used_rollup.iter().filter(|u| !**u).count();
+        let blobs: Vec<(Namespace, Vec<u8>)> = submission
+            .into_blobs()
+            .into_iter()
+            .map(|b| (b.namespace, b.data))
+            .collect();
+        let d = decode_blobs(&blobs, &self.sources, &self.filter);
+        let (blobs_text, real, ureal, malformed, orphans) =
+            (d.blobs_text, d.real, d.ureal, d.malformed, d.orphans);
+        let dec = d.dec;
 
         let cmp = format!(
             "nb={nb} nblobs={nblobs} gh={greatest} hs={} csz={csz} seqns={seqns} incl={} excl={} blobs={blobs_text}",
@@ -736,10 +771,395 @@ impl Session {
             if excl.is_empty() { "-".to_string() } else { excl.join(",") },
         );
         let extra = format!(
-            "usz={usz} ureal={ureal} real={real} malformed={malformed} orph={orphans} dec={}",
-            if dec.is_empty() { "-".to_string() } else { dec.join(",") }
+            "usz={usz} ureal={ureal} real={real} malformed={malformed} orph={orphans} dec={dec}"
         );
         (cmp, extra, greatest)
+    }
+}
+
+// ---------------------------------------------------------------------------------------------
+// end-to-end sessions: the REAL `BlobSubmitter::run` select loop against an in-process Celestia
+// app (gRPC over a 127.0.0.1:0 listener). The mock confirms a broadcast `BlobTx` only when the
+// script says so, which makes the batching of the real loop deterministic.
+// ---------------------------------------------------------------------------------------------
+mod e2e {
+    use std::sync::{
+        Arc,
+        Mutex,
+    };
+
+    use astria_core::generated::{
+        celestia::v1::{
+            query_server::{
+                Query as BlobQueryService,
+                QueryServer as BlobQueryServer,
+            },
+            Params as BlobParams,
+            QueryParamsRequest as QueryBlobParamsRequest,
+            QueryParamsResponse as QueryBlobParamsResponse,
+        },
+        cosmos::{
+            auth::v1beta1::{
+                query_server::{
+                    Query as AuthQueryService,
+                    QueryServer as AuthQueryServer,
+                },
+                BaseAccount,
+                Params as AuthParams,
+                QueryAccountRequest,
+                QueryAccountResponse,
+                QueryParamsRequest as QueryAuthParamsRequest,
+                QueryParamsResponse as QueryAuthParamsResponse,
+            },
+            base::{
+                abci::v1beta1::TxResponse,
+                node::v1beta1::{
+                    service_server::{
+                        Service as MinGasPriceService,
+                        ServiceServer as MinGasPriceServer,
+                    },
+                    ConfigRequest as MinGasPriceRequest,
+                    ConfigResponse as MinGasPriceResponse,
+                },
+                tendermint::v1beta1::{
+                    service_server::{
+                        Service as NodeInfoService,
+                        ServiceServer as NodeInfoServer,
+                    },
+                    GetNodeInfoRequest,
+                    GetNodeInfoResponse,
+                },
+            },
+            tx::v1beta1::{
+                service_server::{
+                    Service as TxService,
+                    ServiceServer as TxServer,
+                },
+                BroadcastTxRequest,
+                BroadcastTxResponse,
+                GetTxRequest,
+                GetTxResponse,
+            },
+        },
+        tendermint::{
+            p2p::DefaultNodeInfo,
+            types::BlobTx,
+        },
+    };
+    use prost::{
+        Message as _,
+        Name as _,
+    };
+    use tonic::{
+        transport::Server,
+        Request,
+        Response,
+        Status,
+    };
+
+    pub const CELESTIA_CHAIN_ID: &str = "celestia-verif";
+
+    #[derive(Default)]
+    pub struct Captured {
+        /// per broadcast `BlobTx`: (namespace id, blob data)
+        pub broadcasts: Vec<Vec<(Vec<u8>, Vec<u8>)>>,
+        /// number of broadcasts that `GetTx` reports as included
+        pub confirmed: usize,
+    }
+
+    #[derive(Clone, Default)]
+    pub struct Mock(pub Arc<Mutex<Captured>>);
+
+    #[async_trait::async_trait]
+    impl NodeInfoService for Mock {
+        async fn get_node_info(
+            self: Arc<Self>,
+            _: Request<GetNodeInfoRequest>,
+        ) -> Result<Response<GetNodeInfoResponse>, Status> {
+            Ok(Response::new(GetNodeInfoResponse {
+                default_node_info: Some(DefaultNodeInfo {
+                    network: CELESTIA_CHAIN_ID.to_string(),
+                    ..Default::default()
+                }),
+                ..Default::default()
+            }))
+        }
+    }
+
+    #[async_trait::async_trait]
+    impl AuthQueryService for Mock {
+        async fn account(
+            self: Arc<Self>,
+            request: Request<QueryAccountRequest>,
+        ) -> Result<Response<QueryAccountResponse>, Status> {
+            let account = BaseAccount {
+                address: request.into_inner().address,
+                pub_key: None,
+                account_number: 10,
+                sequence: 53,
+            };
+            Ok(Response::new(QueryAccountResponse {
+                account: Some(pbjson_types::Any {
+                    type_url: BaseAccount::type_url(),
+                    value: account.encode_to_vec().into(),
+                }),
+            }))
+        }
+
+        async fn params(
+            self: Arc<Self>,
+            _: Request<QueryAuthParamsRequest>,
+        ) -> Result<Response<QueryAuthParamsResponse>, Status> {
+            Ok(Response::new(QueryAuthParamsResponse {
+                params: Some(AuthParams {
+                    max_memo_characters: 256,
+                    tx_sig_limit: 7,
+                    tx_size_cost_per_byte: 10,
+                    sig_verify_cost_ed25519: 590,
+                    sig_verify_cost_secp256k1: 1000,
+                }),
+            }))
+        }
+    }
+
+    #[async_trait::async_trait]
+    impl BlobQueryService for Mock {
+        async fn params(
+            self: Arc<Self>,
+            _: Request<QueryBlobParamsRequest>,
+        ) -> Result<Response<QueryBlobParamsResponse>, Status> {
+            Ok(Response::new(QueryBlobParamsResponse {
+                params: Some(BlobParams {
+                    gas_per_blob_byte: 8,
+                    gov_max_square_size: 64,
+                }),
+            }))
+        }
+    }
+
+    #[async_trait::async_trait]
+    impl MinGasPriceService for Mock {
+        async fn config(
+            self: Arc<Self>,
+            _: Request<MinGasPriceRequest>,
+        ) -> Result<Response<MinGasPriceResponse>, Status> {
+            Ok(Response::new(MinGasPriceResponse {
+                minimum_gas_price: "0.002000000000000000utia".to_string(),
+            }))
+        }
+    }
+
+    #[async_trait::async_trait]
+    impl TxService for Mock {
+        async fn get_tx(
+            self: Arc<Self>,
+            request: Request<GetTxRequest>,
+        ) -> Result<Response<GetTxResponse>, Status> {
+            let hash = request.into_inner().hash;
+            let index = usize::from_str_radix(hash.trim_start_matches('0'), 16).unwrap_or(0);
+            let confirmed = self.0.lock().unwrap().confirmed;
+            if index < 1 || index > confirmed {
+                return Err(Status::not_found("tx not found"));
+            }
+            Ok(Response::new(GetTxResponse {
+                tx: None,
+                tx_response: Some(TxResponse {
+                    height: 100 + index as i64,
+                    txhash: hash,
+                    code: 0,
+                    ..TxResponse::default()
+                }),
+            }))
+        }
+
+        async fn broadcast_tx(
+            self: Arc<Self>,
+            request: Request<BroadcastTxRequest>,
+        ) -> Result<Response<BroadcastTxResponse>, Status> {
+            let blob_tx = BlobTx::decode(request.into_inner().tx_bytes.as_ref())
+                .map_err(|e| Status::invalid_argument(e.to_string()))?;
+            let blobs = blob_tx
+                .blobs
+                .iter()
+                .map(|b| (b.namespace_id.to_vec(), b.data.to_vec()))
+                .collect();
+            let mut cap = self.0.lock().unwrap();
+            cap.broadcasts.push(blobs);
+            // tx hashes are 1, 2, 3, … (64 hex digits)
+            let txhash = format!("{:064x}", cap.broadcasts.len());
+            Ok(Response::new(BroadcastTxResponse {
+                tx_response: Some(TxResponse {
+                    txhash,
+                    code: 0,
+                    ..TxResponse::default()
+                }),
+            }))
+        }
+    }
+
+    /// Serves the mock on an OS-assigned local port; returns the address.
+    pub async fn spawn(mock: Mock) -> std::net::SocketAddr {
+        let listener = tokio::net::TcpListener::bind("127.0.0.1:0").await.unwrap();
+        let addr = listener.local_addr().unwrap();
+        tokio::spawn(async move {
+            let _ = Server::builder()
+                .add_service(NodeInfoServer::new(mock.clone()))
+                .add_service(AuthQueryServer::new(mock.clone()))
+                .add_service(BlobQueryServer::new(mock.clone()))
+                .add_service(MinGasPriceServer::new(mock.clone()))
+                .add_service(TxServer::new(mock))
+                .serve_with_incoming(tokio_stream::wrappers::TcpListenerStream::new(listener))
+                .await;
+        });
+        addr
+    }
+}
+
+struct E2eSession {
+    mock: e2e::Mock,
+    handle: super::BlobSubmitterHandle,
+    token: CancellationToken,
+    join: Option<tokio::task::JoinHandle<astria_eyre::eyre::Result<()>>>,
+    _state_file: tempfile::NamedTempFile,
+    filter: IncludeRollup,
+    sources: HashMap<[u8; 32], Source>,
+    stuck: bool,
+    exit: String,
+}
+
+const E2E_WAIT: std::time::Duration = std::time::Duration::from_secs(30);
+
+impl E2eSession {
+    async fn new(filter_ids: &[RollupId], m: &'static Metrics) -> Self {
+        use std::io::Write as _;
+        let text = filter_ids
+            .iter()
+            .map(|id| BASE64_STANDARD.encode(id.as_ref()))
+            .collect::<Vec<_>>()
+            .join(",");
+        let filter = IncludeRollup::parse(&text).expect("filter parses");
+        let mock = e2e::Mock::default();
+        let addr = e2e::spawn(mock.clone()).await;
+        let state = Arc::new(crate::relayer::State::new());
+        let key = tendermint::private_key::Secp256k1::from_slice(&unhex(
+            "c8076374e2a4a58db1c924e3dafc055e9685481054fe99e58ed67f5c6ed80e62",
+        ))
+        .unwrap();
+        let client_builder = crate::relayer::CelestiaClientBuilder::new(
+            e2e::CELESTIA_CHAIN_ID.to_string(),
+            0.002,
+            format!("http://{addr}").parse().unwrap(),
+            crate::relayer::CelestiaKeys::from(key),
+            state.clone(),
+        )
+        .unwrap();
+        let mut state_file = tempfile::NamedTempFile::new().unwrap();
+        state_file.write_all(br#"{"state":"fresh"}"#).unwrap();
+        state_file.flush().unwrap();
+        let startup = crate::relayer::SubmissionStateAtStartup::new_from_path(state_file.path())
+            .await
+            .expect("fresh submission state");
+        let token = CancellationToken::new();
+        let (submitter, handle) =
+            BlobSubmitter::new(client_builder, filter.clone(), state, startup, token.clone(), m);
+        let join = tokio::spawn(submitter.run());
+        E2eSession {
+            mock,
+            handle,
+            token,
+            join: Some(join),
+            _state_file: state_file,
+            filter,
+            sources: HashMap::new(),
+            stuck: false,
+            exit: "-".to_string(),
+        }
+    }
+
+    fn queued(&self) -> usize {
+        self.handle.tx.max_capacity() - self.handle.tx.capacity()
+    }
+
+    fn broadcasts(&self) -> usize {
+        self.mock.0.lock().unwrap().broadcasts.len()
+    }
+
+    async fn send(&mut self, spec: &BlockSpec) -> String {
+        let src = Source::new(spec.make());
+        // compressed size of the block alone (the model's size oracle for the e2e sessions is the
+        // sum of these; the scripted sessions stay several percent away from the limit)
+        let solo = Shadow::default().extended(&src, &self.filter).csize();
+        let text = src.text();
+        self.sources.insert(src.hash, src.clone());
+        match self.handle.send(Box::new(src.block)).await {
+            Ok(()) => format!("sent blk={text} solo={solo}"),
+            Err(_) => format!("closed blk={text} solo={solo}"),
+        }
+    }
+
+    async fn wait(&mut self, queued: usize, broadcasts: usize) -> String {
+        if self.stuck {
+            return format!("timeout queued={} broadcasts={}", self.queued(), self.broadcasts());
+        }
+        let t0 = std::time::Instant::now();
+        loop {
+            if self.queued() == queued && self.broadcasts() == broadcasts {
+                return "ok".to_string();
+            }
+            if t0.elapsed() > E2E_WAIT || self.join.as_ref().map_or(true, |j| j.is_finished()) {
+                self.stuck = true;
+                return format!("timeout queued={} broadcasts={}", self.queued(), self.broadcasts());
+            }
+            tokio::time::sleep(std::time::Duration::from_millis(20)).await;
+        }
+    }
+
+    fn confirm(&mut self) -> String {
+        let mut cap = self.mock.0.lock().unwrap();
+        cap.confirmed = cap.broadcasts.len();
+        "ok".to_string()
+    }
+
+    /// shut the loop down the way the relayer does and wait for it
+    async fn finish(&mut self) -> String {
+        self.confirm();
+        self.token.cancel();
+        if let Some(join) = self.join.take() {
+            self.exit = match tokio::time::timeout(E2E_WAIT, join).await {
+                Ok(Ok(Ok(()))) => "ok".to_string(),
+                Ok(Ok(Err(_))) => "err".to_string(),
+                Ok(Err(_)) => "panic".to_string(),
+                Err(_) => "timeout".to_string(),
+            };
+        }
+        format!("subs={} exit={}", self.broadcasts(), self.exit)
+    }
+
+    fn sub(&self, i: usize) -> String {
+        let cap = self.mock.0.lock().unwrap();
+        let Some(raw) = cap.broadcasts.get(i) else {
+            return "none".to_string();
+        };
+        let blobs: Vec<(Namespace, Vec<u8>)> = raw
+            .iter()
+            .map(|(ns, data)| {
+                (
+                    Namespace::new_v0(&ns[ns.len().saturating_sub(10)..]).unwrap_or(Namespace::TRANSACTION),
+                    data.clone(),
+                )
+            })
+            .collect();
+        let d = decode_blobs(&blobs, &self.sources, &self.filter);
+        format!(
+            "nblobs={} blobs={} # real={} ureal={} malformed={} orph={} dec={}",
+            blobs.len(),
+            d.blobs_text,
+            d.real,
+            d.ureal,
+            d.malformed,
+            d.orphans,
+            d.dec
+        )
     }
 }
 
@@ -747,38 +1167,89 @@ impl Session {
 // op lines
 // ---------------------------------------------------------------------------------------------
 
-struct Exec {
+struct Exec<'a> {
+    rt: &'a tokio::runtime::Runtime,
     session: Option<Session>,
+    e2e: Option<E2eSession>,
     metrics: &'static Metrics,
 }
 
-impl Exec {
+fn parse_filter(words: &[&str]) -> Option<(Vec<RollupId>, u64)> {
+    let mut ids = vec![];
+    let mut last = 0u64;
+    for w in words {
+        if let Some(v) = w.strip_prefix("filter=") {
+            if v != "all" {
+                for h in v.split(',') {
+                    let bytes = unhex(h);
+                    if bytes.len() != 32 {
+                        return None;
+                    }
+                    let mut b = [0u8; 32];
+                    b.copy_from_slice(&bytes);
+                    ids.push(RollupId::new(b));
+                }
+            }
+        } else if let Some(v) = w.strip_prefix("last=") {
+            last = v.parse().unwrap_or(0);
+        }
+    }
+    Some((ids, last))
+}
+
+impl Exec<'_> {
+    /// ops of the end-to-end sessions (`batch e2e-…`)
+    fn exec_e2e(&mut self, words: &[&str]) -> String {
+        if words[1] == "e2e-reset" {
+            let Some((ids, _)) = parse_filter(&words[2..]) else {
+                return "err:bad-op".to_string();
+            };
+            if let Some(mut old) = self.e2e.take() {
+                let _ = self.rt.block_on(old.finish());
+            }
+            self.e2e = Some(self.rt.block_on(E2eSession::new(&ids, self.metrics)));
+            return "ok".to_string();
+        }
+        let Some(s) = self.e2e.as_mut() else {
+            return "err:no-session".to_string();
+        };
+        let arg = |key: &str| -> usize {
+            words
+                .iter()
+                .find_map(|w| w.strip_prefix(key).and_then(|v| v.strip_prefix('=')))
+                .and_then(|v| v.parse().ok())
+                .unwrap_or(0)
+        };
+        match words[1] {
+            "e2e-send" => match BlockSpec::parse(&words[2..]) {
+                Some(spec) => self.rt.block_on(s.send(&spec)),
+                None => "err:bad-op".to_string(),
+            },
+            "e2e-wait" => {
+                let (q, b) = (arg("queued"), arg("broadcasts"));
+                self.rt.block_on(s.wait(q, b))
+            }
+            "e2e-confirm" => s.confirm(),
+            "e2e-finish" => self.rt.block_on(s.finish()),
+            "e2e-sub" => s.sub(words.get(2).and_then(|w| w.parse().ok()).unwrap_or(usize::MAX)),
+            "e2e-end" => "ok".to_string(),
+            _ => "err:bad-op".to_string(),
+        }
+    }
+
     fn exec(&mut self, op: &str) -> String {
         let words: Vec<&str> = op.split(' ').filter(|w| !w.is_empty()).collect();
         if words.len() < 2 || words[0] != "batch" {
             return "err:bad-op".to_string();
         }
+        if words[1].starts_with("e2e-") {
+            return self.exec_e2e(&words);
+        }
         if words[1] == "reset" {
             // batch reset filter=all|<hex>,<hex> last=<n>
-            let mut ids = vec![];
-            let mut last = 0u64;
-            for w in &words[2..] {
-                if let Some(v) = w.strip_prefix("filter=") {
-                    if v != "all" {
-                        for h in v.split(',') {
-                            let bytes = unhex(h);
-                            if bytes.len() != 32 {
-                                return "err:bad-op".to_string();
-                            }
-                            let mut b = [0u8; 32];
-                            b.copy_from_slice(&bytes);
-                            ids.push(RollupId::new(b));
-                        }
-                    }
-                } else if let Some(v) = w.strip_prefix("last=") {
-                    last = v.parse().unwrap_or(0);
-                }
-            }
+            let Some((ids, last)) = parse_filter(&words[2..]) else {
+                return "err:bad-op".to_string();
+            };
             self.session = Some(Session::new(&ids, last, self.metrics));
             return "ok".to_string();
         }
@@ -1001,6 +1472,124 @@ impl Gen {
         ops
     }
 
+    /// The real `BlobSubmitter::run` loop against the in-process Celestia mock. Blocks of about
+    /// `LIMIT/div` incompressible bytes (several percent away from the limit, so that which blocks
+    /// fit together does not depend on compression details); the script confirms one submission at
+    /// a time and waits for the loop to settle, so the batching is deterministic. A block whose
+    /// height was already submitted is sent again (must be skipped).
+    fn e2e_session(&mut self, div: usize, n: usize, filter: &[u8]) -> Vec<String> {
+        let mut ops = vec![format!("batch e2e-reset filter={}", filter_token(filter))];
+        // per block: about 0.96 * LIMIT / div bytes on rollups that pass the filter
+        let size = LIMIT * 96 / 100 / div;
+        let mk = |g: &mut Gen, h: u32| {
+            let data = vec![(0u8, 'r', size / 2), (4, 'r', size / 2), (6, 'r', 3_000)];
+            g.spec(h, 0, data)
+        };
+        // model of the scripted loop: what is queued / accumulating / pending / in flight
+        let mut queued: Vec<u32> = vec![];
+        let mut batch = 0usize;
+        let mut pending = false;
+        let mut inflight: Option<u32> = None;
+        let mut greatest_in_batch = 0u32;
+        let mut last = 0u32;
+        let mut broadcasts = 0usize;
+        let mut settle = |queued: &mut Vec<u32>,
+                          batch: &mut usize,
+                          pending: &mut bool,
+                          inflight: &mut Option<u32>,
+                          greatest: &mut u32,
+                          last: u32,
+                          broadcasts: &mut usize| {
+            loop {
+                if inflight.is_none() && *batch > 0 {
+                    *inflight = Some(*greatest);
+                    *broadcasts += 1;
+                    *batch = 0;
+                    if *pending {
+                        *pending = false;
+                        *batch = 1;
+                    }
+                    continue;
+                }
+                if !*pending && !queued.is_empty() {
+                    let h = queued.remove(0);
+                    if h <= last {
+                        continue;
+                    }
+                    if *batch < div {
+                        *batch += 1;
+                    } else {
+                        *pending = true;
+                    }
+                    *greatest = (*greatest).max(h);
+                    continue;
+                }
+                break;
+            }
+        };
+        let mut h = 1u32;
+        let mut sent = 0usize;
+        // first block alone, so that a submission is in flight while the others arrive
+        let spec = mk(self, h);
+        ops.push(format!("batch e2e-send {}", spec.to_tokens()));
+        queued.push(h);
+        sent += 1;
+        settle(&mut queued, &mut batch, &mut pending, &mut inflight, &mut greatest_in_batch, last, &mut broadcasts);
+        ops.push(format!("batch e2e-wait queued={} broadcasts={broadcasts}", queued.len()));
+        while sent < n {
+            // a burst of blocks while the submission is in flight; one of them repeats a height
+            let burst = (div + 2).min(n - sent);
+            for i in 0..burst {
+                h += 1;
+                let spec = mk(self, h);
+                ops.push(format!("batch e2e-send {}", spec.to_tokens()));
+                queued.push(h);
+                sent += 1;
+                if i == 0 && sent > 2 {
+                    let dup = mk(self, 1);
+                    ops.push(format!("batch e2e-send {}", dup.to_tokens()));
+                    queued.push(1);
+                }
+            }
+            settle(&mut queued, &mut batch, &mut pending, &mut inflight, &mut greatest_in_batch, last, &mut broadcasts);
+            ops.push(format!("batch e2e-wait queued={} broadcasts={broadcasts}", queued.len()));
+            // confirm submissions one at a time until the burst is consumed
+            for _ in 0..(2 * n + 4) {
+                if queued.is_empty() && !pending && batch == 0 && inflight.is_none() {
+                    break;
+                }
+                ops.push("batch e2e-confirm".to_string());
+                if let Some(g) = inflight.take() {
+                    last = last.max(g);
+                }
+                settle(&mut queued, &mut batch, &mut pending, &mut inflight, &mut greatest_in_batch, last, &mut broadcasts);
+                ops.push(format!("batch e2e-wait queued={} broadcasts={broadcasts}", queued.len()));
+                if queued.is_empty() && !pending && batch == 0 && inflight.is_none() {
+                    break;
+                }
+                if queued.is_empty() && !pending && sent < n {
+                    break;
+                }
+            }
+        }
+        for _ in 0..(2 * n + 4) {
+            if pending || batch > 0 || inflight.is_some() || !queued.is_empty() {
+                ops.push("batch e2e-confirm".to_string());
+                if let Some(g) = inflight.take() {
+                    last = last.max(g);
+                }
+                settle(&mut queued, &mut batch, &mut pending, &mut inflight, &mut greatest_in_batch, last, &mut broadcasts);
+                ops.push(format!("batch e2e-wait queued={} broadcasts={broadcasts}", queued.len()));
+            }
+        }
+        ops.push("batch e2e-finish".to_string());
+        for i in 0..(broadcasts + 1) {
+            ops.push(format!("batch e2e-sub {i}"));
+        }
+        ops.push("batch e2e-end".to_string());
+        ops
+    }
+
     /// find data lengths so that the candidate payload is exactly LIMIT and LIMIT+1 bytes
     fn boundary_sessions(&mut self, two_blocks: bool) -> Vec<Vec<String>> {
         let filter = IncludeRollup::parse("").unwrap();
@@ -1091,7 +1680,9 @@ fn driver() {
     let _guard = rt.enter();
     let mut trace = Trace::from_env();
     let mut exec = Exec {
+        rt: &rt,
         session: None,
+        e2e: None,
         metrics: metrics(),
     };
     let run = |trace: &mut Trace, exec: &mut Exec, op: &str| {
@@ -1137,6 +1728,12 @@ fn driver() {
     sessions.push(g.compressible_session());
     sessions.extend(g.boundary_sessions(false));
     sessions.extend(g.boundary_sessions(true));
+    sessions.push(g.e2e_session(1, 5, &[]));
+    sessions.push(g.e2e_session(2, 6, &[0, 4]));
+    if thorough {
+        sessions.push(g.e2e_session(2, 9, &[]));
+        sessions.push(g.e2e_session(3, 10, &[0, 4, 6]));
+    }
     eprintln!("batch: generated {} sessions in {:?}", sessions.len(), t0.elapsed());
     for s in sessions {
         for op in s {
